@@ -61,9 +61,10 @@ ProvOf(pk, c1, c2) ==
 VARIABLES ph, b, t, c1, c2
 vars == <<ph, b, t, c1, c2>>
 Init == ph = "start" /\ b = 0 /\ t = <<>> /\ c1 = 1 /\ c2 = 1
-Next == \/ ph = "start"  /\ ph' = "bucket" /\ b' \in 0..(NB - 1) /\ UNCHANGED <<t, c1, c2>>
-        \/ ph = "bucket" /\ ph' = "case" /\ b' = b /\ t' \in {x \in AllLists : Bucket(x) = b}
-                         /\ c1' \in 1..3 /\ c2' \in 1..3
+ToBucket == ph = "start"  /\ ph' = "bucket" /\ b' \in 0..(NB - 1) /\ UNCHANGED <<t, c1, c2>>
+ToCase   == ph = "bucket" /\ ph' = "case" /\ b' = b /\ t' \in {x \in AllLists : Bucket(x) = b}
+                          /\ c1' \in 1..3 /\ c2' \in 1..3
+Next == ToBucket \/ ToCase
 Spec == Init /\ [][Next]_vars
 
 OnCase(P) == ph = "case" => P
